@@ -6,7 +6,7 @@ from .. import model
 from ..model import FACE, POS
 
 LEVEL = "model_checking"
-RULE = ("Parse records: every well-formed signature within a bound (<= 2 inputs, <= 2 outputs, <= 2 pairs per argument, "
+RULE = ("Parse records: every well-formed signature within a bound (<= 2 inputs, <= 2 outputs, <= 4 pairs per argument, "
         "names from a pool, 5 positions; sampled beyond it up to 3 inputs) printed with and without spaces, and every "
         "single-character deletion / insertion / substitution (alphabet of 20 characters) of a sample of them; Equiv "
         "records: pairs related by a renaming, by a non-injective renaming, by a position change or by an argument "
@@ -41,9 +41,10 @@ def rand_arg(rng, names, maxpairs=2):
 
 
 def rand_struct(rng, nin=None, nout=None, names=NAMES):
-    nm = rng.sample(names, rng.randint(1, 3))
-    ins = [rand_arg(rng, nm) for _ in range(nin or rng.randint(1, 3))]
-    outs = [rand_arg(rng, nm) for _ in range(nout if nout is not None else rng.randint(1, 2))]
+    nm = rng.sample(names, rng.randint(1, min(4, len(names))))
+    mp = rng.choice([2, 2, 2, 3, 4])                 # arguments of three and four pairs too (a three-dimensional ufunc)
+    ins = [rand_arg(rng, nm, mp) for _ in range(nin or rng.randint(1, 3))]
+    outs = [rand_arg(rng, nm, mp) for _ in range(nout if nout is not None else rng.randint(1, 2))]
     return ins, outs
 
 
@@ -138,8 +139,12 @@ def execute(case):
             ins = case["ins"]
             outs = case["outs"]
 
+            sp = case.get("spaces", 0)
+
             def ann(arg):
-                return Annotated[np.ndarray, ",".join("".join(n) + ":" + "".join(p) for n, p in arg)]
+                # blanks after the commas / around the text: "spaces aside", as in a signature given as a string
+                txt = (", " if sp else ",").join("".join(n) + ":" + "".join(p) for n, p in arg)
+                return Annotated[np.ndarray, (" " + txt + " ") if sp == 2 else txt]
 
             pnames = case.get("params") or [f"a{k}" for k in range(len(ins))]
             params = {pnames[k]: ann(a) for k, a in enumerate(ins)}
@@ -209,7 +214,7 @@ def gen_cases(rng, thorough):
     for _ in range(6000 if thorough else 900):
         ins, outs = rand_struct(rng, names=["X", "Y", "Z"])
         used = sorted({n for a in ins + outs for n, _ in a})
-        kind = rng.choice(["rename", "rename", "merge", "position", "permute", "same"])
+        kind = rng.choice(["rename", "rename", "merge", "merge-onto-used", "position", "permute", "same"])
         pool = ["A", "B", "C", "X", "Y", "Z", "lon", "lat"]
         if kind in ("rename", "same"):
             new = used if kind == "same" else rng.sample(pool, len(used))
@@ -220,6 +225,17 @@ def gen_cases(rng, thorough):
             m = {n: rng.choice(["A", "B"]) for n in used}
             ins2 = [[(m[n], p) for n, p in a] for a in ins]
             outs2 = [[(m[n], p) for n, p in a] for a in outs]
+        elif kind == "merge-onto-used":
+            # one name of the signature merged onto another name the signature uses itself (earlier or later in it)
+            if len(used) < 2:
+                continue
+            u_, v_ = rng.sample(used, 2)
+            m = {n: (v_ if n == u_ else n) for n in used}
+            ins2 = [[(m[n], p) for n, p in a] for a in ins]
+            outs2 = [[(m[n], p) for n, p in a] for a in outs]
+            if rng.random() < 0.5:
+                ins, outs, ins2, outs2 = ins2, outs2, ins, outs
+            kind = "merge"
         elif kind == "position":
             ins2 = [list(a) for a in ins]
             outs2 = [list(a) for a in outs]
@@ -246,7 +262,7 @@ def gen_cases(rng, thorough):
             outs = [[(n1, rng.choice(POS))]] if rng.random() < 0.5 else [[]]
         else:
             ins, outs = [[(n2, rng.choice(POS))]], [[(n3, rng.choice(POS))]]
-        m = {n1: n1, n2: n2, n3: n2}
+        m = {n1: n1, n2: n2, n3: n2} if rng.random() < 0.5 else {n1: n1, n2: n3, n3: n3}      # onto the earlier / the later name
         ins2 = [[(m[n], p) for n, p in a] for a in ins]
         outs2 = [[(m[n], p) for n, p in a] for a in outs]
         pair = [struct_text(ins, outs), struct_text(ins2, outs2)]
@@ -260,7 +276,8 @@ def gen_cases(rng, thorough):
         # parameter names in no particular (e.g. not alphabetical) order: the declaration order is what counts
         cases.append({"ev": "Hints", "ins": [[[chars(n), chars(p)] for n, p in a] for a in ins],
                       "outs": [[[chars(n), chars(p)] for n, p in a] for a in outs],
-                      "params": rng.sample(["u", "dx", "phi", "area", "z", "b", "m", "a0"], len(ins))})
+                      "params": rng.sample(["u", "dx", "phi", "area", "z", "b", "m", "a0"], len(ins)),
+                      "spaces": rng.choice([0, 0, 1, 2])})
     # selection of the predefined operation for every shift and several axis names
     for op in ("diff", "interp", "min", "max", "cumsum"):
         for f in POS:
